@@ -90,9 +90,15 @@ def check(ctx):
     ctx.count("reduction_api_methods", n_api)
     ctx.floor("reduction_api_methods", 12)
     T.argpos(ctx, lambda p: p == RED, "c37", floor=20)
+    from ._phases import option_used, min_count
+
+    option_used(ctx, ["dask/dataframe/dask_expr/_reductions.py"], floor=20)
+    min_count(ctx, ["dask/dataframe/core.py", "dask/dataframe/dask_expr/_collection.py"], floor=2)
 
 
 VARIANTS = [
+    ("dask/dataframe/dask_expr/_reductions.py", "    def reduction_combine(cls, parts, skipna):\n        if skipna:\n            return moment_combine(parts, sum=np.nansum, axis=(0,))\n        else:\n            return moment_combine(parts, axis=(0,))", "    def reduction_combine(cls, parts, skipna):\n        return moment_combine(parts, axis=(0,))", "PHASE.option-used"),
+    ("dask/dataframe/core.py", "    C[counts < min_periods] = np.nan", "    C[counts <= min_periods] = np.nan", "ALG.min-count"),
     (RED, "    def reduction_aggregate(cls, df):\n        return df.sum().astype(\"int64\")", "    def reduction_aggregate(cls, df):\n        return df.count().astype(\"int64\")", "ALG.decomposition"),
     (RED, "class Len(Reduction):\n    reduction_chunk = staticmethod(len)\n    reduction_aggregate = sum", "class Len(Reduction):\n    reduction_chunk = staticmethod(len)\n    reduction_aggregate = max", "ALG.decomposition"),
     (RED, "class NBytes(Reduction):\n    # Only supported for Series objects\n    reduction_aggregate = sum", "class NBytes(Reduction):\n    # Only supported for Series objects\n    reduction_aggregate = None", "ALG.decomposition"),
